@@ -1043,9 +1043,9 @@ def run(ctx):
     base_lookups_by_diff_key(ctx, 'R03.10')
     status_never_aborts(ctx, 'R03.11')
     from ..signatures import call_compat
-    call_compat(ctx, 'R03.12', ['nbdime.merging.', 'nbdime.prettyprint'], 'the merge aborts with an internal error for the inputs that reach this arm')
+    call_compat(ctx, 'R03.12', ['nbdime.merging.', 'nbdime.prettyprint'] if ctx.tier == 'quick' else ['nbdime.'], 'the merge aborts with an internal error for the inputs that reach this arm')
     from ..names import name_binding
-    name_binding(ctx, 'R03.13', ['nbdime.merging.', 'nbdime.prettyprint'])
+    name_binding(ctx, 'R03.13', ['nbdime.merging.', 'nbdime.prettyprint'] if ctx.tier == 'quick' else ['nbdime.'])
     from ..opfields import check_op_fields
     check_op_fields(ctx, 'R03.14', ['nbdime.merging.'])
     sort_key_homogeneous(ctx, 'R03.15')
